@@ -187,6 +187,8 @@ pub enum Line {
     /// a directive line that is rejected (request `X kind`): `P` = `#pragma foo`, `P0` = `#pragma`, `C` = `#foo`, `C1` = `#1 foo`,
     /// `I0` = `#include`, `I1` = `#include foo`, `I2` = `#include "f1" x`
     Bad(&'static str),
+    /// the null directive: `#` alone on its line (request `N`)
+    Null,
 }
 
 const BAD_KINDS: &[(&str, &str)] =
@@ -239,6 +241,7 @@ fn enc_line(l: &Line) -> String {
         Line::Once => "O".into(),
         Line::Warning => "W".into(),
         Line::Bad(k) => format!("X {}", k),
+        Line::Null => "N".into(),
         Line::Text(t) => format!("T {}", enc_toks(t)),
     }
 }
@@ -255,6 +258,7 @@ fn parse_line(s: &str) -> Option<Line> {
         "I" => Line::Include(rest.to_string()),
         "O" => Line::Once,
         "W" => Line::Warning,
+        "N" => Line::Null,
         "X" => Line::Bad(BAD_KINDS.iter().find(|(k, _)| *k == rest)?.0),
         "T" => Line::Text(parse_toks(rest)?),
         _ => return None,
@@ -382,6 +386,7 @@ impl Program {
                     s.push_str(hash);
                     s.push_str("pragma once")
                 }
+                Line::Null => s.push('#'),
                 Line::Bad(k) => {
                     s.push_str(hash);
                     s.push_str(BAD_KINDS.iter().find(|(x, _)| x == k).unwrap().1);
@@ -1314,6 +1319,8 @@ fn ref_file(r: &mut Reference, st: &mut RefRun, idx: usize, depth: usize) -> Res
                 ref_flush(r, st)?;
                 r.undef(t)?;
             }
+            // directives without effect (the text in front of a directive is complete: an invocation does not span it)
+            Line::Null => ref_flush(r, st)?,
             Line::Warning => ref_flush(r, st)?,
             Line::Bad(_) => {
                 // the text in front of the directive is expanded first (its error wins), then the line is rejected
@@ -1829,6 +1836,10 @@ fn generate(rng: &mut Rng, hist: &mut Hist) -> Vec<Program> {
         }
         if g.rng.chance(1, 20) {
             files[fi].lines.push(Line::Warning);
+        }
+        if g.rng.chance(1, 25) {
+            files[fi].lines.push(Line::Null);
+            g.hist.add("line:null-directive");
         }
     }
     // malformed directives now and then (the whole compilation is rejected: InvalidDefine / InvalidUndef)
